@@ -476,3 +476,46 @@ func DerivesFromCall(v ssa.Value, target *ssa.Function, within []*ssa.Function, 
 	}
 	return false
 }
+
+// IsAliasOf reports whether v is param itself, or a load from (or the address of) the cell the
+// parameter was spilled to because a closure captures it (`t0 = new T (p); *t0 = p; t1 = *t0`).
+func IsAliasOf(v ssa.Value, param ssa.Value) bool {
+	if v == param {
+		return true
+	}
+	switch t := v.(type) {
+	case *ssa.UnOp:
+		if t.Op == token.MUL {
+			return isSpillCellOf(t.X, param)
+		}
+	case *ssa.ChangeType:
+		return IsAliasOf(t.X, param)
+	}
+	return false
+}
+
+func isSpillCellOf(cell ssa.Value, param ssa.Value) bool {
+	al, ok := cell.(*ssa.Alloc)
+	if !ok {
+		if fv, ok := cell.(*ssa.FreeVar); ok {
+			_ = fv
+		}
+		return false
+	}
+	n := 0
+	okStore := false
+	if refs := al.Referrers(); refs != nil {
+		for _, r := range *refs {
+			if st, isSt := r.(*ssa.Store); isSt && st.Addr == ssa.Value(al) {
+				n++
+				if st.Val == param {
+					okStore = true
+				}
+			}
+		}
+	}
+	return n == 1 && okStore
+}
+
+// IsSpillCellOf reports whether cell is the Alloc a parameter was spilled to.
+func IsSpillCellOf(cell ssa.Value, param ssa.Value) bool { return isSpillCellOf(cell, param) }
